@@ -26,10 +26,10 @@
         obs    := '-' | <idx> ':' <val> {'.' …}  values read by the handlers, in order
 
     place.run <mode> <request> {' | ' <request>}
-        mode := 'seq' | 'par' | 'il:' <rid> {'.' <rid>}
+        mode := 'seq' | 'nest' | 'par' | 'il:' <rid> {'.' <rid>}
       Request i of the scenario is request id i. `il` lists who performs its next *scheduled* step
       (creation of the batch context, or a handler access); the library's own `Clear`s are attached
-      to the preceding step of their request. `seq`/`par`: the model runs them one after the other
+      to the preceding step of their request. `seq`/`nest`/`par`: the model runs them one after the other
       (by theorem C15.noninterference every merge gives the same answer).
       → ok <robs> {' | ' <robs>}
         robs := <obs> '~' <vals>     obs as above from `Batch.execFull` (the request alone);
@@ -146,7 +146,7 @@ def placeRun (mode : String) (reqs : List (Srv × Req)) : Option String := do
   if marked.map (·.map (·.1)) ≠ reqs.map (fun (srv, req) => steps srv req) then none
   let progs := reqs.map fun (srv, req) => prog (steps srv req)
   let sched ←
-    if mode = "seq" ∨ mode = "par" then some []
+    if mode = "seq" ∨ mode = "par" ∨ mode = "nest" then some []
     else if mode.startsWith "il:" then
       (parseList (mode.drop 3).toString "." String.toNat?).map fun rs =>
         expandSched rs (marked.map fun m => true :: m.map (·.2))
